@@ -618,6 +618,345 @@ def generate_intrange(envname, rng, res, combiner=None, consumer=None):
 
 
 # ----------------------------------------------------------------------------------------------------------------------
+# sibling family: BINOP(OP(x; p), OP(y; q)) with (x, p) != (y, q).  Rewrite rules that merge two results of the same operation
+# (Choose._multiply, Take / Inflate / Transpose pairs under Add or Multiply, ...) must look at the parameters of BOTH nodes.
+
+SIBLING_BINOPS = ('multiply', 'add', 'subtract', 'multiply', 'maximum', 'add', 'equal', 'multiply', 'minimum')     # products and sums twice/thrice: the rewrite rules are _multiply / _add
+SIBLING_VARIANTS = ('diff_param', 'diff_operand', 'both')
+SIBLING_OPS = sorted(n for n in OPS if not OPS[n].static and not OPS[n].terminal)
+SIBLING_KEY_OPS = ('choose', 'take', 'getitem', 'stack', 'concatenate', 'minimum', 'maximum', 'mod', 'power', 'einsum', 'transpose', 'swapaxes', 'sum',
+                   'prod', 'interp', 'searchsorted', 'multiply', 'add')
+
+
+def _index_positions(spec):
+    """positions in args of operands that are used as selector / index"""
+    op, params = spec['op'], spec['params']
+    if op == 'choose':
+        return [0]
+    if op == 'take' and params.get('fnindex'):
+        return [1]
+    if op == 'getitem':
+        return [it['r'] for it in params['items'] if isinstance(it, dict) and 'r' in it]
+    return []
+
+
+def _like(g, a):
+    """a fresh leaf with the shape, kind and value range of node a (so that the domain of the operation is kept)"""
+    rng = g.rng
+    v = numpy.asarray(a.vals)
+    shape = tuple(a.shape)
+    r3 = lambda x: numpy.round(x, 3)
+    if a.kind == 'b':
+        new = numpy.ones(shape, dtype=bool) if v.all() else numpy.zeros(shape, dtype=bool) if not v.any() else rng.integers(0, 2, size=shape).astype(bool)
+    elif a.kind == 'i':
+        new = rng.integers(int(v.min()), int(v.max()) + 1, size=shape) if v.size else numpy.zeros(shape, dtype=int)
+    elif a.kind == 'f':
+        lo, hi = (float(v.min()), float(v.max())) if v.size else (0., 1.)
+        if hi - lo < .2:
+            lo, hi = lo - .1 * (lo > .3 or lo < 0), hi + .1
+        new = r3(rng.uniform(lo, hi, size=shape))
+        if len(shape) >= 2 and shape[-1] == shape[-2] and v.size:
+            # keep the diagonal of square matrices (conditioning / eigenvalue separation)
+            base = v[0] if a.uniform else v[int(rng.integers(len(v)))]
+            eye = numpy.eye(shape[-1], dtype=bool)
+            new[..., eye] = r3(base[..., eye] + rng.uniform(-.2, .2, size=base[..., eye].shape))
+    else:
+        re, im = v.real, v.imag
+        new = r3(rng.uniform(re.min(), re.max() + .1, size=shape)) + 1j * r3(rng.uniform(im.min(), im.max() + .1, size=shape))
+    if a.leaf and v.ndim == 2 and a.uniform and len(shape) == 1 and v.size > 1 and (numpy.diff(v[0]) > 0).all():
+        new = numpy.sort(new)       # sorted 1-D operand (searchsorted) stays sorted
+        if (numpy.diff(new) <= 0).any():
+            new = v[0] + (1 if a.kind == 'i' else .137)
+    if a.f is None:
+        kinds = ('raw',)
+    else:
+        kinds = ('const', 'arg')
+    return g.fresh(a.kind, shape, values=new, leafkinds=kinds)
+
+
+def _sibling_index(g, a, opname):
+    """another selector / index with the shape and admissible range of node a: constant or function valued"""
+    rng = g.rng
+    if a.bounds is None:
+        return None
+    lo, hi = a.bounds
+    v = numpy.asarray(a.vals)
+    if v.size:
+        lo, hi = min(lo, int(v.min())), max(hi, int(v.max()))
+    if rng.random() < .4 or (lo < 0 <= hi):
+        for _ in range(3):
+            new = rng.integers(lo, hi + 1, size=tuple(a.shape))
+            if not (a.uniform and (new == v[0]).all()) or hi == lo:
+                break
+        g.case.res.count('sibling_index/constant')
+        return g.fresh('i', tuple(a.shape), values=new, leafkinds=('const',))
+    n = hi + 1 if lo >= 0 else -lo
+    g.case.res.count('sibling_index/function-valued')
+    keep, g.force_fn = g.force_fn, lo < 0
+    try:
+        return g.index_node(n, shape=tuple(a.shape), nonneg=lo >= 0, pointdep_ok=(opname == 'choose'))
+    finally:
+        g.force_fn = keep
+
+
+def _sibling_operands(g, n1, spec=None, positions=None):
+    """same operation, form and parameters; some operands replaced by different ones of the same shape and kind"""
+    rng = g.rng
+    case = g.case
+    spec = spec or n1.spec
+    ids = list(spec['args'])
+    idxpos = _index_positions(spec)
+    if positions is None:
+        cand = list(range(len(ids)))
+        if idxpos and rng.random() < .8:
+            positions = [idxpos[int(rng.integers(len(idxpos)))]]
+        else:
+            k = int(rng.integers(1, len(cand) + 1))
+            positions = sorted(int(i) for i in rng.choice(cand, size=k, replace=False))
+    for k in positions:
+        a = case.nodes[ids[k]]
+        new = _sibling_index(g, a, spec['op']) if k in idxpos else _like(g, a)
+        if new is None:
+            return None
+        ids[k] = new.id
+    return g.try_op(spec['op'], spec['form'], ids, spec['params'])
+
+
+def _mutate_params(g, n1):
+    """same operation and operands, different parameters (result shape must stay broadcast compatible); returns a spec or None"""
+    rng = g.rng
+    case = g.case
+    spec = n1.spec
+    op, form, params = spec['op'], spec['form'], copy.deepcopy(spec['params'])
+    args = [case.nodes[i] for i in spec['args']]
+    ids = list(spec['args'])
+    x = args[0] if args else None
+    nd = len(x.shape) if x is not None and x.shape is not None else 0
+    if op in ('stack', 'concatenate') and len(ids) >= 2 and len({tuple(a.shape) for a in args}) == 1 and len(set(ids)) > 1:
+        perm = list(rng.permutation(len(ids)))
+        if perm == list(range(len(ids))):
+            perm = perm[::-1]
+        ids = [ids[i] for i in perm]
+    elif op in ('transpose',) and nd >= 2 and form in ('func', 'method'):
+        for _ in range(8):
+            axes = [int(a) for a in rng.permutation(nd)]
+            if axes != [a % nd for a in params['axes']] and tuple(x.shape[a] for a in axes) == tuple(n1.shape):
+                params['axes'] = axes
+                break
+        else:
+            return None
+    elif op == 'swapaxes' and nd >= 2:
+        for _ in range(8):
+            a, b = (int(rng.integers(-nd, nd)) for _ in range(2))
+            sh = list(x.shape)
+            sh[a], sh[b] = sh[b], sh[a]
+            if tuple(sh) == tuple(n1.shape) and {a % nd, b % nd} != {params['a'] % nd, params['b'] % nd}:
+                params['a'], params['b'] = a, b
+                break
+        else:
+            return None
+    elif op in ('sum', 'prod', 'all', 'any', 'linalg.norm') and nd >= 1 and form not in ('noaxis', 'default', 'ord'):
+        old = params['axis']
+        norm = lambda ax: tuple(sorted(a % nd for a in (ax if isinstance(ax, list) else [ax]))) if ax is not None else tuple(range(nd))
+        for _ in range(10):
+            if isinstance(old, list):
+                ax = [int(a) for a in rng.choice(nd, size=len(old), replace=False)]
+            elif old is None:
+                return None
+            else:
+                ax = int(rng.integers(nd))
+            if norm(ax) != norm(old) and tuple(n for i, n in enumerate(x.shape) if i not in norm(ax)) == tuple(n1.shape):
+                params['axis'] = ax
+                break
+        else:
+            return None
+    elif op == 'take' and 'const' in params:
+        n = int(numpy.prod(x.shape, dtype=int)) if params['axis'] is None else x.shape[params['axis']]
+        old = numpy.array(params['const']['d']).reshape(params['const']['s'])
+        for _ in range(5):
+            new = rng.integers(-n, n, size=old.shape)
+            if (new % n != old % n).any():
+                params['const'] = dict(params['const'], d=new.ravel().tolist())
+                break
+        else:
+            return None
+    elif op == 'getitem':
+        items = params['items']
+        nexplicit = sum(1 for it in items if it != 'e' and it != 'n')
+        ax, changed = 0, False
+        for k, it in enumerate(items):
+            if it == 'e':
+                ax += nd - nexplicit
+                continue
+            if it == 'n':
+                continue
+            n = x.shape[ax] if ax < nd else 1
+            if isinstance(it, dict) and 'i' in it and n > 1:
+                it['i'] = int((it['i'] % n + int(rng.integers(1, n))) % n) - (n if rng.random() < .5 else 0)
+                changed = True
+            elif isinstance(it, dict) and 'a' in it and it['a']['k'] == 'i' and n > 1:
+                old = numpy.array(it['a']['d'])
+                new = (old % n + rng.integers(1, n, size=old.shape)) % n - (n if rng.random() < .5 else 0)
+                it['a'] = dict(it['a'], d=[int(v) for v in new])
+                changed = True
+            elif isinstance(it, dict) and 's' in it and it['s'][2] in (None, 1) and not changed:
+                lo, hi, _ = slice(*it['s']).indices(n)
+                if hi - lo < n and hi > lo:
+                    shift = int(rng.integers(1, n - (hi - lo) + 1))
+                    lo2 = (lo + shift) % (n - (hi - lo) + 1)
+                    if lo2 != lo:
+                        it['s'] = [lo2, lo2 + hi - lo, it['s'][2]]
+                        changed = True
+            ax += 1
+        if not changed:
+            return None
+    elif op == 'interp':
+        r = rng.random()
+        if form == 'lr' and r < .4:
+            for k in ('left', 'right'):
+                if params.get(k) is not None:
+                    params[k] = type(params[k])(params[k] + int(rng.integers(1, 4)))
+        elif not params.get('fpc'):
+            isint = all(isinstance(v, int) for v in params['fp'])
+            params['fp'] = [int(v + rng.integers(1, 3)) if isint else round(float(v + rng.uniform(.2, 1.)), 2) for v in params['fp']]
+        else:
+            return None
+    elif op == 'searchsorted' and 'a' in params and form != 'sorter':
+        if rng.random() < .4:
+            params['side'] = 'right' if params['side'] == 'left' else 'left'
+            params['defaultside'] = False
+            if form == 'right':
+                form = 'func'
+        else:
+            isint = all(isinstance(v, int) for v in params['a'])
+            params['a'] = [v + 1 if isint else round(v + .37, 2) for v in params['a']]
+    elif op in ('trace',):
+        n = min(x.shape[params['axis1']], x.shape[params['axis2']])
+        offs = [o for o in range(-n + 1, n) if o != params['offset']]
+        if not offs or form == 'default':
+            return None
+        params['offset'] = int(rng.choice(offs))
+    elif op == 'diagonal' and params.get('offset'):
+        if form == 'default':
+            return None
+        params['offset'] = -params['offset']
+    elif op == 'compress':
+        cond = list(params['cond'])
+        perm = [bool(cond[i]) for i in rng.permutation(len(cond))]
+        if perm == cond:
+            return None
+        params['cond'] = perm
+    elif op == 'divmod':
+        params['out'] = 1 - params['out']
+    elif op == 'einsum' and '->' in params['subscripts']:
+        lhs, out = params['subscripts'].split('->')
+        core = out.replace('...', '')
+        if len(core) < 2:
+            return None
+        for _ in range(6):
+            new = ''.join(rng.permutation(list(core)))
+            if new != core:
+                params['subscripts'] = lhs + '->' + ('...' if out.startswith('...') else '') + new
+                break
+        else:
+            return None
+    elif op == 'cross' and form == 'axes':
+        return None
+    elif op == 'repeat':
+        return None
+    elif op == 'broadcast_to' or op == 'reshape':
+        return None
+    else:
+        return None
+    return dict(op=op, form=form, args=ids, params=params)
+
+
+def _broadcastable(a, b):
+    try:
+        full = numpy.broadcast_shapes(tuple(a), tuple(b))
+    except ValueError:
+        return False
+    return len(full) <= 4 and numpy.prod(full, dtype=int) <= 4 * MAXSIZE
+
+
+def generate_sibling(envname, rng, res, opname, binop, variant):
+    """BINOP(OP(x; p), OP(y; q)) with (x, p) != (y, q); returns the Case"""
+    case = Case(envname, res)
+    g = Gen(case, rng)
+    seed_pool(g, case.env, rng)
+    if rng.random() < .3:
+        grow(g, str(rng.choice(OPNAMES, p=op_weights())))     # something that is not a leaf in the pool
+    n1 = None
+    for _ in range(3):
+        n1 = grow(g, opname)
+        if n1 == 'violation':
+            prune(case.prog)
+            return case
+        if n1 is not None and n1.vals is not None and 0 not in n1.shape and numpy.prod(n1.shape, dtype=int) <= MAXSIZE:
+            break
+        n1 = None
+    if n1 is None:
+        res.count('sibling_not_built/' + opname)
+        prune(case.prog)
+        return case
+    n2, used = None, None
+    order = [variant] + [v for v in SIBLING_VARIANTS if v != variant] + ['regrow']
+    for v in order:
+        g.freshonly = False
+        if v == 'diff_param':
+            spec = _mutate_params(g, n1)
+            n2 = g.try_op(spec['op'], spec['form'], spec['args'], spec['params']) if spec else None
+        elif v == 'diff_operand':
+            n2 = _sibling_operands(g, n1)
+        elif v == 'both':
+            spec = _mutate_params(g, n1)
+            n2 = _sibling_operands(g, n1, spec=spec) if spec else None
+        else:
+            for _ in range(4):
+                n2 = grow(g, opname)
+                if n2 == 'violation':
+                    prune(case.prog)
+                    return case
+                if n2 is not None and n2.vals is not None and n2 is not n1 and _broadcastable(n1.shape, n2.shape):
+                    break
+                n2 = None
+        if n2 is not None and n2.vals is not None and _broadcastable(n1.shape, n2.shape) and 0 not in n2.shape:
+            used = v
+            break
+        n2 = None
+    if case.violations:
+        prune(case.prog)
+        return case
+    if n2 is None:
+        res.count('sibling_not_built/' + opname)
+        prune(case.prog)
+        return case
+    kinds = n1.kind + n2.kind
+    allowed = [binop]
+    if 'c' in kinds:
+        allowed = [b for b in allowed if b in ('multiply', 'add', 'subtract', 'equal')]
+    if kinds == 'bb':
+        allowed = [b for b in allowed if b != 'subtract']
+    allowed += ['add', 'multiply']
+    ids = [n1.id, n2.id] if rng.random() < .7 else [n2.id, n1.id]
+    node = None
+    for b in allowed:
+        node = g.try_op(b, str(rng.choice(OPS[b].forms)), ids, {})
+        if node is not None:
+            res.count('sibling_binop/' + b)
+            break
+    if node is None:
+        res.count('sibling_not_built/' + opname)
+    else:
+        res.count('sibling/' + opname)
+        res.count('sibling_variant/' + used)
+        same_values = n1.vals.shape == n2.vals.shape and bool((numpy.asarray(n1.vals) == numpy.asarray(n2.vals)).all())
+        res.count('sibling_values/' + ('equal' if same_values else 'different'))
+    prune(case.prog)
+    return case
+
+
+# ----------------------------------------------------------------------------------------------------------------------
 # replay: rebuild a case from its program
 
 def execute(prog, res):
